@@ -375,10 +375,15 @@ theorem gDesig_grow (env : Env) {rets rets' : NodeId → Url} {s s' : RState} (h
     · rw [hdr, hag r (by unfold Registered; rw [hd']; rfl)]; exact h1
     · rw [hdr]; exact h2
 
-/-- schema `id`, if it carries a `$ref`, has a recorded target, and it is the designated one -/
+/-- schema `id`, if it carries a `$ref`, has a recorded target, and it is the designated one; the same
+    for the initial (lexical) target of a `$dynamicRef` -/
 def RefOkG (env : Env) (rets : NodeId → Url) (s : RState) (D : Doc) (id : NodeId) : Prop :=
-  ∀ n, D.st.get? id = some n → n.ref ≠ "" →
-    ∃ info t, lookupNat id s.infos = some info ∧ info.resolvedRef = some t ∧ GDesig env rets s D id n.ref t
+  ∀ n, D.st.get? id = some n →
+    (n.ref ≠ "" →
+      ∃ info t, lookupNat id s.infos = some info ∧ info.resolvedRef = some t ∧ GDesig env rets s D id n.ref t) ∧
+    (n.dynamicRef ≠ "" →
+      ∃ info t, lookupNat id s.infos = some info ∧ info.resolvedDynamicRef = some t ∧
+        GDesig env rets s D id n.dynamicRef t)
 
 /-- what the open-recursion callback must satisfy -/
 def RecG (env : Env) (top : NodeId) (recDoc : ResolveDoc) : Prop :=
@@ -560,24 +565,38 @@ theorem resolveRefsLoop_G (env : Env) (top : NodeId) (recDoc : ResolveDoc) (hrec
           (∀ k, k ≠ id → (lookupNat k s1.infos).isSome = true → lookupNat k s2.infos = lookupNat k s1.infos) ∧
           (∀ r, r ≠ root → Registered s1 r → s2.doc? r = s1.doc? r) ∧
           (∀ i t, lookupNat id s1.infos = some i → i.resolvedRef = some t →
-            ∃ i', lookupNat id s2.infos = some i' ∧ i'.resolvedRef = some t) := by
+            ∃ i', lookupNat id s2.infos = some i' ∧ i'.resolvedRef = some t) ∧
+          (n.dynamicRef ≠ "" → ∃ info t, lookupNat id s2.infos = some info ∧ info.resolvedDynamicRef = some t ∧
+            GDesig env rets2 s2 ⟨env.st, d.draft, root⟩ id n.dynamicRef t) := by
         split at h2
         · rw [bind_eq_ok] at h2
           obtain ⟨⟨o, sb⟩, hr, h2⟩ := h2
           simp only [Res.ok.injEq] at h2
           subst h2
-          obtain ⟨rets2, d2, a1, a2, a3, a4, a5, _, a7, _⟩ :=
+          obtain ⟨rets2, d2, a1, a2, a3, a4, a5, a6, a7, a8⟩ :=
             refStep_G env top recDoc hrec hfresh rets1 s1 root id n.dynamicRef o sb hg1 hid hr
               (fun i => { i with resolvedDynamicRef := some o.target, dynamicRefAnchor := o.dynFrag }) (fun _ => rfl)
-          refine ⟨rets2, a1, a2, a3, a4, a5, ?_⟩
-          intro i t hi ht
-          rw [hi] at a7
-          exact ⟨_, a7, ht⟩
-        · simp only [Res.ok.injEq] at h2
+          rw [hd1] at a6
+          simp only [Option.some.injEq] at a6
+          subst a6
+          rw [hdr1] at a8
+          have hidS : (lookupNat id s1.infos).isSome = true :=
+            done_lookup_isSome ((hg1.docs root d1 hd1).done id hid).1
+          refine ⟨rets2, a1, a2, a3, a4, a5, ?_, fun _ => ?_⟩
+          · intro i t hi ht
+            rw [hi] at a7
+            exact ⟨_, a7, ht⟩
+          · cases h0 : lookupNat id s1.infos with
+            | none => rw [h0] at hidS; simp at hidS
+            | some i0 =>
+              rw [h0] at a7
+              exact ⟨_, o.target, a7, rfl, a8⟩
+        · rename_i hne
+          simp only [Res.ok.injEq] at h2
           subst h2
           exact ⟨rets1, fun _ _ => rfl, hg1, Grow.refl _, fun _ _ _ => rfl, fun _ _ _ => rfl,
-            fun i t hi ht => ⟨i, hi, ht⟩⟩
-      obtain ⟨rets2, ag2, hg2, gr2, k2, dc2, r2⟩ := g2
+            fun i t hi ht => ⟨i, hi, ht⟩, fun h => absurd (by simpa using h) hne⟩
+      obtain ⟨rets2, ag2, hg2, gr2, k2, dc2, r2, r2d⟩ := g2
       obtain ⟨d2, hd2, _, hdr2⟩ := gr2.doc root d1 hd1
       obtain ⟨rets3, ag3, hg3, gr3, k3, dc3, ok3⟩ :=
         ih s2 s' rets2 d2 h hg2 hd2 (fun x hx => hids x (List.mem_cons_of_mem _ hx))
@@ -600,17 +619,25 @@ theorem resolveRefsLoop_G (env : Env) (top : NodeId) (recDoc : ResolveDoc) (hrec
         · exact ok3 x hxr
         · have hxid : x = id := (List.mem_cons.mp hx).resolve_right hxr
           subst hxid
-          intro n' hn' hne
+          intro n' hn'
           have hn'' : env.st.get? x = some n' := hn'
           rw [hn] at hn''
           simp only [Option.some.injEq] at hn''
           subst hn''
-          obtain ⟨info, t, hi, ht, hdes⟩ := r1 hne
-          obtain ⟨i2, hi2, ht2⟩ := r2 info t hi ht
-          have e3 := k3 x hxr (by rw [hi2]; rfl)
-          refine ⟨i2, t, by rw [e3]; exact hi2, ht2, ?_⟩
-          exact gDesig_grow env (gr2.trans gr3) (agree_trans ag2 ag3 gr2.registered) ⟨env.st, d.draft, root⟩
-            (gr1.registered root (by unfold Registered; rw [hd]; rfl)) x n.ref t hdes
+          constructor
+          · intro hne
+            obtain ⟨info, t, hi, ht, hdes⟩ := r1 hne
+            obtain ⟨i2, hi2, ht2⟩ := r2 info t hi ht
+            have e3 := k3 x hxr (by rw [hi2]; rfl)
+            refine ⟨i2, t, by rw [e3]; exact hi2, ht2, ?_⟩
+            exact gDesig_grow env (gr2.trans gr3) (agree_trans ag2 ag3 gr2.registered) ⟨env.st, d.draft, root⟩
+              (gr1.registered root (by unfold Registered; rw [hd]; rfl)) x n.ref t hdes
+          · intro hne
+            obtain ⟨i2, t, hi2, ht2, hdes⟩ := r2d hne
+            have e3 := k3 x hxr (by rw [hi2]; rfl)
+            refine ⟨i2, t, by rw [e3]; exact hi2, ht2, ?_⟩
+            exact gDesig_grow env gr3 ag3 ⟨env.st, d.draft, root⟩
+              (gr2.registered root (gr1.registered root (by unfold Registered; rw [hd]; rfl))) x n.dynamicRef t hdes
 
 /-! ### resolver.resolve on a fresh document -/
 
@@ -860,9 +887,11 @@ theorem resolve_G (env : Env) (fuel : Nat) (root : NodeId) (base : String) (rs :
     (hfresh : LoaderFresh env root) (h : resolve env fuel root base = .ok rs) :
     ∃ s b d rets, retrievalOf base = .ok b ∧ rets root = b ∧ s.doc? root = some d ∧ rs.draft = d.draft ∧
       GInv env root rets s ∧
-      ∀ id ∈ allNodes env.st (env.st.size + 2) [root], ∀ n, env.st.get? id = some n → n.ref ≠ "" →
-        ∃ info t, lookupNat id rs.infos = some info ∧ info.resolvedRef = some t ∧
-          GDesig env rets s ⟨env.st, rs.draft, root⟩ id n.ref t := by
+      ∀ id ∈ allNodes env.st (env.st.size + 2) [root], ∀ n, env.st.get? id = some n →
+        (n.ref ≠ "" → ∃ info t, lookupNat id rs.infos = some info ∧ info.resolvedRef = some t ∧
+          GDesig env rets s ⟨env.st, rs.draft, root⟩ id n.ref t) ∧
+        (n.dynamicRef ≠ "" → ∃ info t, lookupNat id rs.infos = some info ∧ info.resolvedDynamicRef = some t ∧
+          GDesig env rets s ⟨env.st, rs.draft, root⟩ id n.dynamicRef t) := by
   obtain ⟨s, b, d, hb, hs, hd, _, hdr, _, hinfos⟩ := resolve_ok' env fuel root base rs h
   obtain ⟨rets, _, hret, hg, _, d', hd', hok⟩ :=
     resolveDoc_G env root hfresh fuel root b .d2020 {} s (fun _ => b) hs (gInv_init env root _)
@@ -871,18 +900,24 @@ theorem resolve_G (env : Env) (fuel : Nat) (root : NodeId) (base : String) (rs :
   simp only [Option.some.injEq] at hd'
   subst hd'
   refine ⟨s, b, d, rets, hb, hret, hd, hdr, hg, ?_⟩
-  intro id hid n hn hne
-  obtain ⟨info, t, hi, ht, hdes⟩ := hok id hid n hn hne
-  cases fuel with
-  | zero => simp [resolveDoc] at hs
-  | succ fuel =>
-    obtain ⟨hdocs, fresh, hfr⟩ :=
-      resolveDocStep_docs env _ (resolveDoc_docs env fuel) _ _ _ _ _ hs (docsOk_init env)
-    have hknown : d.known.contains id = true :=
-      hdocs root d hd fresh hfr id (allNodes_sub_checkStructure env.st _ _ root fresh hfr id hid)
-    refine ⟨info, t, ?_, ht, by rw [hdr]; exact hdes⟩
-    rw [hinfos, lookupNat_filter_key id (fun x => d.known.contains x) s.infos hknown]
-    exact hi
+  intro id hid n hn
+  have hlook : lookupNat id rs.infos = lookupNat id s.infos := by
+    cases fuel with
+    | zero => simp [resolveDoc] at hs
+    | succ fuel =>
+      obtain ⟨hdocs, fresh, hfr⟩ :=
+        resolveDocStep_docs env _ (resolveDoc_docs env fuel) _ _ _ _ _ hs (docsOk_init env)
+      have hknown : d.known.contains id = true :=
+        hdocs root d hd fresh hfr id (allNodes_sub_checkStructure env.st _ _ root fresh hfr id hid)
+      rw [hinfos, lookupNat_filter_key id (fun x => d.known.contains x) s.infos hknown]
+  obtain ⟨h1, h2⟩ := hok id hid n hn
+  constructor
+  · intro hne
+    obtain ⟨info, t, hi, ht, hdes⟩ := h1 hne
+    exact ⟨info, t, by rw [hlook]; exact hi, ht, by rw [hdr]; exact hdes⟩
+  · intro hne
+    obtain ⟨info, t, hi, ht, hdes⟩ := h2 hne
+    exact ⟨info, t, by rw [hlook]; exact hi, ht, by rw [hdr]; exact hdes⟩
 
 /-! ### in the words of the Spec -/
 
